@@ -39,7 +39,7 @@ def run(chk, tier, seed):
             nvals = len(U["roots"][fam["roots"][i]]["vals"])
             for j in range(fam["nver"]):
                 for idx in range(min(nvals, 2 if tier == "quick" else 4)):
-                    for meth in ("echo", "by_ref", "mixed"):
+                    for meth in ("echo", "by_ref", "mixed", "cb", "mkcb"):
                         add("abi_call %d %d %d %s %d" % (f, i, j, meth, idx), f=f, i=i, j=j, meth=meth, idx=idx)
                 add("abi_call %d %d %d passable 0" % (f, i, j), f=f, i=i, j=j, meth="passable", idx=0)
                 add("abi_call %d %d %d added 0" % (f, i, j), f=f, i=i, j=j, meth="added", idx=0)
@@ -97,6 +97,28 @@ def run(chk, tier, seed):
         tI, tJ, cx = TG.coq_ty(ri["ty"]), TG.coq_ty(rj["ty"]), TG.coq_val(x)
         lc = A.logged_canon(lg, m["meth"])
         lterm = "(Some %s)" % lc if lc else "None"
+        if m["meth"] in ("cb", "mkcb"):
+            import re as _re
+            ents = [e_ for e_ in lg.split(" ;; ") if e_]
+
+            def logged(prefix):
+                for e_ in ents:
+                    if e_.startswith(prefix + " "):
+                        return "(Some %s)" % e_[len(prefix) + 1:]
+                return "None"
+            if m["meth"] == "cb":
+                ret, _, seen = rest.partition(" seen=")
+                sl = _re.findall(r'"([^"]*)"', seen)
+                ot = "(OCallOk %s)" % ret if kind == "OK" else "OCallPanic"
+                t_ = "agree_cb %d %s %s %s %s %s %s %s" % (e, tI, tJ, cx, logged("with_cb"), "(Some %s)" % sl[0] if sl else "None", logged("cb_ret"), ot)
+            else:
+                # the two calls return the same value: "<r> <r>"; take the first half
+                half = rest[:len(rest) // 2].strip() if kind == "OK" and rest[:len(rest) // 2].strip() == rest[len(rest) // 2:].strip() else None
+                ot = "(OCallOk %s)" % half if (kind == "OK" and half) else ("OCallPanic" if kind != "OK" else "(OCallOk VUnit)")
+                t_ = "agree_mkcb %d %s %s %s %s %s" % (e, tI, tJ, cx, logged("made_cb_called 3"), ot)
+            terms.append((m["n"], t_))
+            oterms.append((m["n"], t_))       # the same predicate is the property: every hop travels in the effective version's format
+            continue
         if m["meth"] == "echo":
             ot = "(OCallOk %s)" % rest if kind == "OK" else "OCallPanic"
             terms.append((m["n"], "agree_echo %d %d %s %s %s %s %s" % (e, j, tI, tJ, cx, lterm, ot)))
